@@ -340,6 +340,22 @@ func c20Workload(seed int64, fonts *c20Fonts, reps int, sharedPDF bool) []c20Cal
 				})
 			}
 		}
+		// face selection in a family of two styles when the requested style lies exactly between them
+		// (a Regular subscript face asks for SemiBold): the choice must not depend on anything but the
+		// arguments
+		for i := 0; i < 3; i++ {
+			add("FontFamily.Face(tie)", func() string {
+				fam := canvas.NewFontFamily("two-styles")
+				if err := fam.LoadFont(fonts.ttf, 0, canvas.FontRegular); err != nil {
+					return "err:" + err.Error()
+				}
+				if err := fam.LoadFont(fonts.ttf, 0, canvas.FontBold); err != nil {
+					return "err:" + err.Error()
+				}
+				face := fam.Face(10, canvas.Black, canvas.FontRegular, canvas.FontSubscript)
+				return fmt.Sprintf("faux bold %.4f faux italic %.4f", face.FauxBold, face.FauxItalic)
+			})
+		}
 		// rendering of distinct canvases
 		for i := 0; i < 4; i++ {
 			i := i
@@ -396,6 +412,24 @@ func c20Workload(seed int64, fonts *c20Fonts, reps int, sharedPDF bool) []c20Cal
 				c.RenderTo(r)
 				r.Close()
 				return digestBytes(normalizeFonts(c20DateRe.ReplaceAll(buf.Bytes(), []byte("D:0"))))
+			}
+			if i == 0 {
+				// two embedded fonts in one SVG: the order of the @font-face blocks is part of the output
+				add("svg(two fonts)", func() string {
+					second := canvas.NewFontFamily("second")
+					if err := second.LoadFont(fonts.ttf, 0, canvas.FontBold); err != nil {
+						return "err:" + err.Error()
+					}
+					c := canvas.New(60, 30)
+					ctx := canvas.NewContext(c)
+					ctx.DrawText(5, 20, canvas.NewTextLine(fonts.family.Face(8, canvas.Black, canvas.FontRegular, canvas.FontNormal), "first font", canvas.Left))
+					ctx.DrawText(5, 8, canvas.NewTextLine(second.Face(8, canvas.Black, canvas.FontBold, canvas.FontNormal), "second font", canvas.Left))
+					var buf bytes.Buffer
+					r := svg.New(&buf, c.W, c.H, nil)
+					c.RenderTo(r)
+					r.Close()
+					return digestBytes(normalizeFonts(buf.Bytes()))
+				})
 			}
 			// the PDF writer subsets the font; in the main workload every PDF call has a font of its own
 			add("pdf", func() string { return pdfOf(ownFamily()) })
